@@ -49,7 +49,11 @@ pub fn fault_call(ch: &mut Chooser, kind: &str) -> Option<(Expr, Vec<Expr>)> {
             6 => (var("vector-ref"), vec![var("wv")]),
             _ => (Expr::Lambda(Formals { fixed: vec!["u".into()], rest: None }, body1(var("u"))), vec![Expr::Int(1), Expr::Int(2)]),
         },
-        "wrong-type" => match ch.below(11) {
+        "wrong-type" => match ch.below(14) {
+            // a comparison applied to a single argument still checks its type
+            11 => (var("<"), vec![q(Datum::Sym("a".into()))]),
+            12 => (var(">="), vec![Expr::Str("x".into())]),
+            13 => (var("="), vec![Expr::Bool(true)]),
             // a non-number after an absorbing / neutral element, in every arithmetic and comparison procedure
             6 => (var("*"), vec![Expr::Int(0), q(Datum::Sym("a".into()))]),
             7 => (var("*"), vec![Expr::Int(3), Expr::Int(0), Expr::Str("x".into()), Expr::Int(4)]),
@@ -244,6 +248,8 @@ pub fn fault_form_with(ch: &mut Chooser, kind: &'static str, context: &'static s
 /// forms that observe what the fault form left behind
 pub fn probes() -> Vec<Form> {
     vec![
+        // the variable of the unbound-read / unbound-set faults is still unbound (reading it is an error again)
+        Form::Expr(var("nowhere-bound")),
         Form::Expr(var("wn")),
         Form::Expr(var("wv")),
         Form::Expr(app("vector-ref", vec![var("lit"), Expr::Int(0)])),
